@@ -2305,7 +2305,8 @@ mod fields_ext {
                 _ => {}
             }
             Ok(match ty {
-                syn::Type::Tuple(syn::TypeTuple { elems, .. }) => {
+                // For a single field a tuple type is the type to convert from/into itself.
+                syn::Type::Tuple(syn::TypeTuple { elems, .. }) if self.len() != 1 => {
                     Either::Left(elems.iter())
                 }
                 other => Either::Right(iter::once(other)),
